@@ -65,6 +65,7 @@ func someValue(r *rng) interface{} {
 
 func genBep44(r *rng, idx int) srvCase {
 	c := srvCase{idx: idx, cfg: baseCfg(r, "bep44")}
+	c.cfg.storeFail = r.intn(3) == 0
 	root := c.cfg.root
 	src := randAddr(r, famOf(r))
 	id := idInBucket(r, root, r.intn(160))
